@@ -138,15 +138,18 @@ Definition begin_obs (c : cfg) (b : list ev) (is_end : bool) : list cfg :=
               | _ => []
               end) (seq 0 (length (hgs (c_st c)))).
 
-Definition consume (b0 : list ev) (fail : bool) (c : cfg) (o : oev) : list cfg :=
+(* [dn] = the events whose send completed somewhere in the log.  A send that never completed was
+   never taken by the loop (Go runs only the chosen case of the producer's select), so such an event
+   is not a candidate for an invisible receive. *)
+Definition consume (b0 : list ev) (fail : bool) (dn : list ev) (c : cfg) (o : oev) : list cfg :=
   match o with
   | OPrepare => try_step c (if fail then LPrepareFail else LPrepare b0)
   | OCancel => try_step c LCancel
-  | OSendStart e => [Cfg (c_st c) (insert e (c_pend c)) (c_unack c) (c_ret c)]
+  | OSendStart e => if memb e dn then [Cfg (c_st c) (insert e (c_pend c)) (c_unack c) (c_ret c)] else [c]
   | OSendDone e => if memb e (c_unack c) then [Cfg (c_st c) (c_pend c) (remove1 e (c_unack c)) (c_ret c)] else []
   | OSendAbort e =>
       (* a producer gives up only after the harness has seen Start return *)
-      if memb e (c_pend c) && c_ret c then [Cfg (c_st c) (remove1 e (c_pend c)) (c_unack c) (c_ret c)] else []
+      if negb (memb e dn) && c_ret c then [c] else []
   | OBegin b => begin_obs c b false
   | OEnd b => begin_obs c b true
   | OReturn err =>
@@ -156,14 +159,15 @@ Definition consume (b0 : list ev) (fail : bool) (c : cfg) (o : oev) : list cfg :
   | OStall _ => []      (* the model never gets stuck: see Props, progress theorems *)
   end.
 
-Definition sim_step (b0 : list ev) (fail : bool) (cs : list cfg) (o : oev) : list cfg :=
+Definition sim_step (b0 : list ev) (fail : bool) (dn : list ev) (cs : list cfg) (o : oev) : list cfg :=
   match cs with
   | [] => []
-  | _ => closure closure_fuel (flat_map (fun c => consume b0 fail c o) cs) []
+  | _ => closure closure_fuel (flat_map (fun c => consume b0 fail dn c o) cs) []
   end.
 
 Definition incl_ok (c : case) : bool :=
-  match fold_left (sim_step (k_b0 c) (k_fail c)) (k_log c) (closure closure_fuel [Cfg init [] [] false] []) with
+  let dn := flat_map (fun o => match o with OSendDone e => [e] | _ => [] end) (k_log c) in
+  match fold_left (sim_step (k_b0 c) (k_fail c) dn) (k_log c) (closure closure_fuel [Cfg init [] [] false] []) with
   | [] => false
   | _ => true
   end.
